@@ -87,9 +87,8 @@ def qLine (ts : List String) : String :=
   | [sv, np] =>
     match bytesOfHex (sv.drop 1).toString with
     | some s =>
-      let nps := parseNp np
-      let isPrint := fun r => !nps.contains r
-      let q := Model.Quote.quoteGo isPrint s
+      let _ := np
+      let q := Model.Quote.quoteStr s
       let back := match Spec.Quote.unquote q with
         | some b => "s" ++ hexOf b
         | none => "lerr"
